@@ -37,6 +37,18 @@ expectations (the statement quantifies over calls, not over first calls on fresh
                      flux away from the axis of an open tube) as the result of the same case in unit 1
   C14.args.unchanged after every call of every form: each argument object (points, arrays, input meshes) and each
                      array-valued default argument object of the generator is what it was before the call
+Documented defaults and call forms (tasks of kind 'defaults'; table SIGNATURES pinned from the unchanged tree, never read
+from the library): for every generator with options - the case with EVERY option at its documented default (cylinder N=50,
+torus 50 x 30, sphere_uv 30 x 50, icosphere 3, spherify 0.01, cylindrify 0.05 / 50 ...), for every option the cases in which
+that option is at its default and the others are not, and the case in which none is - each run as
+  omit:<name>        the option whose value is the documented default left out, the others by name
+  omit:ALL           every option left out (the all-default case)             C14.defaults.<clause>
+  positional         every argument positionally, in the documented order
+  keyword            every option by its documented name                      C14.callform.<clause>
+with the expectations of the explicit call (the same oracle), and
+  C14.defaults.same_as_explicit / C14.callform.same_as_explicit   the returned mesh (type, positions, elements, attributes
+                     and their values) is the one the explicit call of the same case returns
+  C14.defaults.signature   names, order and default values of inspect.signature() are the pinned, documented ones
 A finding of a further form is reported only when the primary form of the same case did not show the same clause
 with the same witness (so a known finding is not reported a second time under another name; in another unit of length
 the witness is expressed in that unit, and scaling by a power of two is exact, so the witnesses coincide).
@@ -56,7 +68,11 @@ RULE = ("one case = one (generator, parameter vector): every generator of mouett
         "default_argument (centre omitted, two calls in a row, where the centre has a default) and unit:2^e (every "
         "length-like argument multiplied by an exact power of two, the returned coordinates divided by it before the "
         "oracle sees them, where the generator has a length-like argument), with identical expectations, and all "
-        "argument / default-argument objects are compared before and after each call")
+        "argument / default-argument objects are compared before and after each call; documented defaults and call "
+        "forms: per generator with options the all-default case, per option the cases with that option (only) at its "
+        "default, and the no-default case, each called with the option left out / all options left out / all arguments "
+        "positional / all options by keyword, judged by the same oracle and compared with the mesh of the explicit call; "
+        "the signature of every generator compared with the pinned documented one")
 ASSUMPTIONS = [
     "admissible = periodic resolutions >= 3 (torus segments, cylinder N, sphere_uv n_long, ring N), sphere_uv n_lat >= 2, "
     "grid / unit_triangle resolutions >= 2, sphere_fibonacci n_pts >= 4, torus minor_radius < major_radius, "
@@ -88,6 +104,13 @@ ASSUMPTIONS = [
     "at 2^-30 instead of 2^-40 (radius >= 4.6e-10) and claims nothing below",
     "C14.unit.orientation_side demands only that the side a closed surface / open tube faces does not depend on the unit "
     "of length (compared with the same case in unit 1), not that it is the outer one",
+    "documented default = the default of the signature of the unchanged tree, pinned in SIGNATURES (the docstrings state "
+    "the same values); an option left out must behave as that value given explicitly, and arguments given positionally "
+    "in the documented order as the same arguments given by name; parameters a generator may have beyond the pinned "
+    "ones are not looked at; numeric defaults are compared by value (1 == 1.0), booleans by type and value",
+    "quick tier: the large cases of the defaults tasks (torus / sphere_uv above 100 vertices, icosphere(3), cylindrify N=50) "
+    "are only compared explicit call vs option left out (same mesh), not handed to the oracle and not run in the "
+    "positional / keyword forms; the thorough tier does both",
     "cylindrify_edges in another unit of length: the scaled polyline is one more member of the primary input class "
     "'mean edge length != 1', so a radius mismatch found there is reported in that class of the primary clause (it is the "
     "known finding: the radius is taken relative to the mean edge length), not as a finding of the unit deviation; every "
@@ -99,14 +122,19 @@ BOUNDS = {
              "independently (unit_grid/unit_triangle 2..6, sphere_uv n_lat 2..6), radii {1/2,1,2}, centres {0,(1,2,3)}, 4 lattice axes, torus radii {(1,1/4),(2,1/2)}, ring N 3..6 x defects "
              "{0,0.3,pi/2,pi,6,6.2} x open x covers {1,2}, icosphere 0..2, fibonacci 4..12, chains 1..6 vertices, all switch "
              "combinations, dual_mesh of 11 closed + 7 bordered generator outputs x 2 modes; unit of length: the 562 cases of "
-             "the 16 generators with a length-like parameter x {2^-12, 2^-24, 2^12} = 1686 runs",
+             "the 16 generators with a length-like parameter x {2^-12, 2^-24, 2^12} = 1686 runs; "
+             "documented defaults / call forms: 80 cases of the 20 generators with options (all-default, one-default, "
+             "no-default) run as 72 option-left-out + 70 positional + 70 keyword calls, 23 signatures compared",
     "thorough": "4316 cases, each run as primary + repeat (4316) + int_dtype (1244) + default_argument (351): "
                 "resolutions 3..12 per axis independently (unit_grid/unit_triangle 2..12, sphere_uv n_lat 2..12), "
                 "radii {1/2,1,2}, centres {0,(1,2,3)}, 6 lattice axes, 5 torus radius pairs, ring N 3..12 x defects "
                 "{0,0.3,pi/2,pi,5,6,6.2,2pi-0.01} x open x covers {1,2,3}, icosphere 0..4, fibonacci 4..80, chains 1..12 vertices, "
                 "tetrahedron on all 24 orderings of a lattice quadruple, all switch combinations, dual_mesh of 18 closed + "
                 "12 bordered generator outputs x 2 modes; unit of length: the 2864 cases of the 16 generators with a "
-                "length-like parameter x {2^-12, 2^-24, 2^-40 (sphere_fibonacci surface: 2^-30), 2^12, 2^24, 2^40} = 17184 runs",
+                "length-like parameter x {2^-12, 2^-24, 2^-40 (sphere_fibonacci surface: 2^-30), 2^12, 2^24, 2^40} = 17184 runs; "
+                "documented defaults / call forms: the 80 cases of quick (large ones with the oracle too) + the whole quick "
+                "box of the 20 generators with options: 787 option-left-out + 932 positional + 932 keyword calls, 23 "
+                "signatures compared",
 }
 
 TOL = 1e-9
@@ -346,7 +374,154 @@ FIBONACCI_SURFACE_MIN_EXPONENT = -30      # see ASSUMPTIONS (qhull's joggle has 
 for _e in sorted({e for v in UNIT_EXPONENTS.values() for e in v} | {FIBONACCI_SURFACE_MIN_EXPONENT}):
     FORMS["unit:2^%d" % _e] = {"calls": 1, "dtype": "float", "unit": _e}
     FORM_CLAUSE["unit:2^%d" % _e] = ("unit", "unit<1" if _e < 0 else "unit>1")
-_ACTIVE = {"form": "primary", "rep": None, "log": None, "unit": 1.0, "tier": "quick", "facts": None}
+
+# ---- call forms: HOW the options are handed over (tasks of kind 'defaults', see DEFAULTS / default_cases below) -----------
+# The documented signature of every generator, pinned here from the unchanged tree (signature = documentation: the
+# docstrings state the same defaults).  NOT read from the library at run time: a change of a default changes the
+# signature too.  REQ = no default.  Point-valued defaults are lists.
+REQ = "<required>"
+SIGNATURES = {
+    "tetrahedron": [("P1", REQ), ("P2", REQ), ("P3", REQ), ("P4", REQ), ("volume", False)],
+    "hexahedron": [("P1", REQ), ("P2", REQ), ("P3", REQ), ("P4", REQ), ("P5", REQ), ("P6", REQ), ("P7", REQ), ("P8", REQ),
+                   ("colored", False), ("triangulate", False), ("volume", False)],
+    "axis_aligned_cube": [("colored", False), ("triangulate", False)],
+    "hexahedron_4pts": [("P1", REQ), ("P2", REQ), ("P3", REQ), ("P4", REQ), ("colored", False), ("volume", False)],
+    "octahedron": [],
+    "dodecahedron": [],
+    "icosahedron": [("center", [0, 0, 0]), ("radius", 1.0), ("uv", False)],
+    "cylinder": [("P1", REQ), ("P2", REQ), ("radius", 1.0), ("N", 50), ("fill_caps", True)],
+    "torus": [("major_segments", 50), ("minor_segments", 30), ("major_radius", 1.0), ("minor_radius", 0.3), ("triangulate", False)],
+    "sphere_uv": [("n_lat", 30), ("n_long", 50), ("center", [0, 0, 0]), ("radius", 1.0)],
+    "icosphere": [("n_refine", 3), ("center", [0, 0, 0]), ("radius", 1.0)],
+    "sphere_fibonacci": [("n_pts", REQ), ("radius", 1.0), ("build_surface", True)],
+    "triangle": [("P0", REQ), ("P1", REQ), ("P2", REQ)],
+    "quad": [("P0", REQ), ("P1", REQ), ("P2", REQ), ("triangulate", False)],
+    "unit_grid": [("nu", REQ), ("nv", REQ), ("triangulate", False), ("generate_uvs", False)],
+    "unit_triangle": [("nu", REQ), ("nv", REQ), ("generate_uvs", False)],
+    "ring": [("N", REQ), ("defect", REQ), ("open", False), ("n_cover", 1)],
+    "flat_ring": [("N", REQ), ("defect", REQ), ("n_cover", 1)],
+    "dual_mesh": [("mesh", REQ), ("mode", "barycenter")],
+    "chain_of_vertices": [("vertices", REQ), ("loop", False)],
+    "vector_field": [("origins", REQ), ("vectors", REQ), ("length_mult", 1.0)],
+    "spherify_vertices": [("points", REQ), ("radius", 0.01), ("n_subdiv", 1)],
+    "cylindrify_edges": [("mesh", REQ), ("radius", 0.05), ("N", 50)],
+}
+OPTIONALS = {g: [(n, d) for n, d in sig if d is not REQ] for g, sig in SIGNATURES.items()}
+#   positional   every argument handed over positionally, in the documented order
+#   keyword      the required arguments positionally, every option by its documented name
+#   omit:<name>  the option <name>, whose value in the case IS the documented default, left out (the others by name); run
+#                on the cases where not every option is at its default (one at a time, the others away from the default)
+#   omit:ALL     every option left out: the case in which every option is at its documented default
+# all judged by the same oracle with the same expectations (C14.defaults.<clause> / C14.callform.<clause>), and the
+# returned mesh must be THE SAME mesh as the one of the primary call of the case (C14.*.same_as_explicit)
+CALL_FORMS = ["positional", "keyword", "omit:ALL"] + sorted({"omit:" + n for opts in OPTIONALS.values() for n, _d in opts})
+for _f in CALL_FORMS:
+    FORMS[_f] = {"calls": 1, "dtype": "float"}
+    FORM_CLAUSE[_f] = ("callform", _f) if not _f.startswith("omit:") else ("defaults", "omitted=" + _f[5:])
+_ACTIVE = {"form": "primary", "rep": None, "log": None, "unit": 1.0, "tier": "quick", "facts": None, "dump": False, "light": False}
+
+
+class _NotApplicable(Exception):
+    """the call form does not apply to the case (the option to leave out is not at its documented default)"""
+
+
+def _same_value(v, d):
+    """the argument value v is the documented default d (bool / number / string / point given as a list)"""
+    np = _np()
+    if isinstance(d, bool):
+        return isinstance(v, (bool, np.bool_)) and bool(v) == d
+    if isinstance(d, str):
+        return isinstance(v, str) and v == d
+    if isinstance(d, (list, tuple)):
+        if not isinstance(v, (np.ndarray, list, tuple)):
+            return False
+        o = np.asarray(v)
+        return o.dtype.kind in "iuf" and o.shape == (len(d),) and bool((o == np.asarray(d)).all())
+    if isinstance(v, (bool, np.bool_)) or not isinstance(v, (int, float, np.integer, np.floating)):
+        return False
+    return float(v) == float(d)
+
+
+def _reshape_call(gen, form, a, k):
+    """the call (a, k), in which the driver hands over every argument, in the call form `form`"""
+    sig = SIGNATURES[gen]
+    names = [n for n, _d in sig]
+    assert len(a) <= len(names) and all(n in names[len(a):] for n in k), (gen, len(a), sorted(k))
+    bound = dict(zip(names, a))
+    bound.update(k)
+    assert all(n in bound for n in names), (gen, sorted(bound))
+    required = tuple(bound[n] for n, d in sig if d is REQ)
+    opts = OPTIONALS[gen]
+    at_default = {n: _same_value(bound[n], d) for n, d in opts}
+    if form == "positional":
+        return tuple(bound[n] for n in names), {}
+    if form == "keyword":
+        return required, {n: bound[n] for n, _d in opts}
+    if form == "omit:ALL":
+        if not opts or not all(at_default.values()):
+            raise _NotApplicable(form)
+        return required, {}
+    x = form[5:]
+    if not at_default.get(x, False) or (len(opts) > 1 and all(at_default.values())):     # the latter: omit:ALL
+        raise _NotApplicable(form)
+    return required, {n: bound[n] for n, _d in opts if n != x}
+
+
+def signature_differences(gen, fn):
+    """[(kind, parameter name, pinned, found)]: where the signature of fn differs from the pinned one.  Parameters the
+    library has beyond the pinned ones are nobody's business here."""
+    import inspect
+    out = []
+    prms = list(inspect.signature(fn).parameters.values())
+    for i, (name, d) in enumerate(SIGNATURES[gen]):
+        if i >= len(prms) or prms[i].name != name:
+            out.append(("parameter_order", name, [n for n, _d in SIGNATURES[gen]], [q.name for q in prms]))
+            return out
+        found = prms[i].default
+        if d is REQ:
+            if found is not inspect.Parameter.empty:
+                out.append(("default_value", name, REQ, repr(found)))
+        elif found is inspect.Parameter.empty or not _same_value(found, d):
+            out.append(("default_value", name, d, "<required>" if found is inspect.Parameter.empty else repr(found)))
+    return out
+
+
+def mesh_dump(m):
+    """everything a caller can see of a returned mesh: container type, positions, elements, attributes"""
+    out = {"type": type(m).__name__, "vertices": [[float(c) for c in v] for v in m.vertices]}
+    out["n_vertices"] = len(out["vertices"])
+    for cname in (("edges",) if out["type"] == "PolyLine" else ("faces", "cells")):
+        cont = getattr(m, cname, None)
+        if cont is not None:
+            out[cname] = [[int(v) for v in e] for e in cont]
+            out["n_" + cname] = len(out[cname])
+    attrs = {}
+    for cname in ("vertices", "edges", "faces", "face_corners", "cells", "cell_corners", "cell_faces"):
+        cont = getattr(m, cname, None)
+        if cont is None or not hasattr(cont, "attributes"):
+            continue
+        for name in sorted(str(x) for x in cont.attributes):
+            attr = cont.get_attribute(name)
+            o = call(lambda: attr.as_array(len(cont)).tolist())
+            attrs[cname + "." + name] = o.value if o.ok else "raises:" + str(o.exc)
+    out["attributes"] = attrs
+    return out
+
+
+DUMP_FIELDS = ("type", "n_vertices", "n_edges", "n_faces", "n_cells", "vertices", "edges", "faces", "cells", "attributes")
+
+
+def dump_difference(a, b):
+    for f in DUMP_FIELDS:
+        if a.get(f) != b.get(f):
+            return f
+    return None
+
+
+def dump_summary(d):
+    return {"type": d["type"], "n_vertices": d["n_vertices"], "n_edges": d.get("n_edges"), "n_faces": d.get("n_faces"),
+            "n_cells": d.get("n_cells"), "attributes": sorted(d["attributes"]),
+            "first_vertices": d["vertices"][:3], "first_elements": (d.get("faces") or d.get("edges") or [])[:3]}
 
 
 class Cx:
@@ -542,6 +717,9 @@ def run_generator(cx: Cx, fn, icls, *a, **k):
     an exception on an admissible input is a violation, and so is any change of an argument object or of a default
     argument object of the generator (C14.args.unchanged).  Default argument objects are put back afterwards."""
     np = _np()
+    if cx.form in FORMS and cx.form in CALL_FORMS:
+        a, k = _reshape_call(cx.gen, cx.form, a, k)          # _NotApplicable: before anything is counted
+        cx.rep.count("callform_run:%s:%s" % (cx.gen, cx.form))
     args = _arg_names(fn, a, k)
     defaults = _default_objects(fn)
     before = [(n, x, snapshot(x), False) for n, x in args] + [(n, x, snapshot(x), True) for n, x in defaults]
@@ -573,9 +751,18 @@ def run_generator(cx: Cx, fn, icls, *a, **k):
         for x, saved in saved_defaults:
             if x.shape == saved.shape and not np.array_equal(x, saved):
                 np.copyto(x, saved, casting="unsafe")
+    if _ACTIVE.get("dump") and _ACTIVE.get("facts") is not None and cx.rep is _ACTIVE["rep"]:
+        o = call(mesh_dump, result)
+        _ACTIVE["facts"]["dump"] = o.value if o.ok else {"type": type(result).__name__, "n_vertices": -1, "vertices": [],
+                                                         "attributes": {"dump": "raises:" + str(o.exc)}}
     cx.rep.states += 1
     cx.rep.case((cx.gen, cx.form, repr(sorted(cx.params.items()))))
     cx.rep.flag("form:" + cx.form)
+    if _ACTIVE.get("light") and cx.rep is _ACTIVE["rep"]:
+        # a large case of a 'defaults' task in the quick tier: the returned mesh is only compared with the one of the
+        # explicit call of the same case (the oracle sees these sizes in the thorough tier)
+        cx.rep.count("callform_light_runs")
+        return None
     if cx.unit != 1.0 and hasattr(result, "vertices") and len(result.vertices):
         # vacuity guard of the unit deviation: the returned coordinates really live at the deviated scale (every box
         # has extents within [0.05, 16] units: below 16*2^-12 < 0.01 resp. above 0.05*2^12 > 100)
@@ -1662,10 +1849,10 @@ def _canon_detail(d):
     return json.dumps(r(jsonable(d)), sort_keys=True)
 
 
-def _run_form(form, chk, M, p, rep, log):
+def _run_form(form, chk, M, p, rep, log, dump=False, light=False):
     old = dict(_ACTIVE)
     facts = {}
-    _ACTIVE.update(form=form, rep=rep, log=log, unit=2.0 ** FORMS[form].get("unit", 0), facts=facts)
+    _ACTIVE.update(form=form, rep=rep, log=log, unit=2.0 ** FORMS[form].get("unit", 0), facts=facts, dump=dump, light=light)
     try:
         chk(M, p, rep)
     finally:
@@ -1673,16 +1860,20 @@ def _run_form(form, chk, M, p, rep, log):
     return facts
 
 
-def run_case(M, gen, chk, p, rep):
+def run_case(M, gen, chk, p, rep, forms=None, same_mesh=False, light=False):
     """primary form into the report; every further form into a scratch report, with the SAME expectations: what the
     oracle finds there and did not find (same clause, same witness) on the primary form is reported under the clause
     of the form (C14.repeat.* / C14.argform.*)"""
     prim = []
-    prim_facts = _run_form("primary", chk, M, p, rep, prim)
+    prim_facts = _run_form("primary", chk, M, p, rep, prim, dump=same_mesh, light=light)
     explained = {(s, c, k, i, _canon_detail(d)) for (s, c, k, i, d, _m) in prim}
-    for form in forms_of(gen, p):
+    for form in (forms_of(gen, p) if forms is None else forms):
         scratch, log = Report(), []
-        facts = _run_form(form, chk, M, p, scratch, log)
+        try:
+            facts = _run_form(form, chk, M, p, scratch, log, dump=same_mesh, light=light)
+        except _NotApplicable:
+            rep.count("call_form_not_applicable")
+            continue
         if form.startswith("unit:") and prim_facts.get("orientation_sign") and facts.get("orientation_sign"):
             # C14.unit.orientation_side: the surface faces the same way in every unit of length (both results are
             # consistently oriented surfaces of the promised shape with a side to speak of)
@@ -1706,17 +1897,33 @@ def run_case(M, gen, chk, p, rep):
             if f.startswith("form:"):
                 rep.flag(f)
         for name, n in scratch.counters.items():
-            if name.startswith("args_compared:") or name.startswith("unit_result_at_scale:"):
+            if name.startswith(("args_compared:", "unit_result_at_scale:", "callform_run:")):
                 rep.count(name, n)
         clause, tag = FORM_CLAUSE[form]
+        new_findings = 0
         for (s, c, k, i, d, member) in log:
             if (s, c, k, i, _canon_detail(d)) in explained:
                 rep.count("finding_of_primary_form_seen_again:" + form.split(":")[0])
                 continue
+            new_findings += 1
             if s == "C14.args.unchanged" or member:      # the class already says which inputs are concerned
                 rep.violation(s, c, k, i, d)
             else:
                 rep.violation("C14." + clause + "." + s[4:], c, k, i + ":" + tag, d)
+        if same_mesh and "dump" in prim_facts and "dump" in facts:
+            # C14.defaults.same_as_explicit / C14.callform.same_as_explicit: however the options are handed over, the
+            # generator returns the mesh it returns when every argument is given explicitly
+            rep.evaluations += 1
+            rep.count("same_mesh_compared:" + form.split(":")[0])
+            field = dump_difference(prim_facts["dump"], facts["dump"])
+            rep.outcome("same_as_explicit", "same" if field is None else "differs:" + field)
+            if field is not None and not new_findings:      # (what the oracle reported on this form says it already)
+                rep.violation("C14." + FORM_CLAUSE[form][0] + ".same_as_explicit", "procedural." + gen, "mismatch:" + field,
+                              gen + ":" + FORM_CLAUSE[form][1],
+                              {"generator": gen, "params": p, "form": form, "first_differing_field": field,
+                               "documented_signature": [[n, d] for n, d in SIGNATURES[gen]],
+                               "every_argument_explicit": dump_summary(prim_facts["dump"]),
+                               "this_call_form": dump_summary(facts["dump"])})
 
 
 def _selftest(M, rep):
@@ -1761,7 +1968,127 @@ def _selftest(M, rep):
         rep.flag("selftest:unit_deviation")
 
 
+# -------------------------------------------------------------------------------------------------
+# tasks of kind 'defaults': documented defaults and call forms
+# -------------------------------------------------------------------------------------------------
+def default_cases(tier):
+    """generator -> [{"p": case, "big": bool}]: for every generator with options the case in which EVERY option is at its
+    documented default (whatever size that means: cylinder N=50, torus 50 x 30, sphere_uv 30 x 50, icosphere 3), for every
+    option the case(s) in which that option is at its default and the others are not, and the case in which none is.
+    big (quick tier only): the case is large - it is run without the positional / keyword forms, and the meshes it
+    returns are compared with each other (explicit call vs option left out) but not handed to the oracle, which sees
+    these sizes in the thorough tier.  Thorough adds the whole quick box of the generator."""
+    T, F = True, False
+    C0, C1 = CENTRES
+    P1, P2 = AXES[2]
+    out = {
+        "tetrahedron": [dict(pts=QUADS4[2], volume=v) for v in BOOLS],
+        "hexahedron": [dict(pts=HEXAS[1], colored=c, triangulate=t, volume=v) for c in BOOLS for t in BOOLS for v in BOOLS],
+        "axis_aligned_cube": [dict(colored=c, triangulate=t) for c in BOOLS for t in BOOLS],
+        "hexahedron_4pts": [dict(pts=QUADS4[2], colored=c, volume=v) for c in BOOLS for v in BOOLS],
+        "icosahedron": [dict(center=c, radius=r, uv=u) for (c, r, u) in [(C0, 1.0, F), (C0, 2.0, T), (C1, 1.0, T), (C1, 2.0, F), (C1, 2.0, T)]],
+        "cylinder": [dict(P1=P1, P2=P2, radius=r, N=n, fill_caps=fc)
+                     for (r, n, fc) in [(1.0, 50, T), (1.0, 4, F), (0.5, 50, F), (0.5, 4, T), (0.5, 5, F)]],
+        "torus": [dict(major=a, minor=b, R=R, r=r, triangulate=t)
+                  for (a, b, R, r, t) in [(50, 30, 1.0, 0.3, F), (50, 3, 2.0, 0.5, T), (4, 30, 2.0, 0.5, T), (4, 5, 1.0, 0.5, T),
+                                          (4, 5, 2.0, 0.3, T), (4, 5, 2.0, 0.5, F), (4, 5, 2.0, 0.5, T)]],
+        "sphere_uv": [dict(n_lat=a, n_long=b, center=c, radius=r)
+                      for (a, b, c, r) in [(30, 50, C0, 1.0), (30, 4, C1, 2.0), (3, 50, C1, 2.0), (3, 5, C0, 2.0), (3, 5, C1, 1.0),
+                                           (3, 5, C1, 2.0)]],
+        "icosphere": [dict(n_refine=k, center=c, radius=r)
+                      for (k, c, r) in [(3, C0, 1.0), (3, C1, 2.0), (0, C0, 2.0), (1, C1, 1.0), (1, C1, 2.0)]],
+        "sphere_fibonacci": [dict(n_pts=9, radius=r, build_surface=b) for r in (1.0, 2.0) for b in (T, F)],
+        "quad": [dict(pts=TRIS[1], triangulate=t) for t in BOOLS],
+        "unit_grid": [dict(nu=3, nv=4, triangulate=t, generate_uvs=g) for t in BOOLS for g in BOOLS],
+        "unit_triangle": [dict(nu=4, nv=4, generate_uvs=g) for g in BOOLS],
+        "ring": [dict(N=5, defect=0.3, open=o, n_cover=c) for o in BOOLS for c in (1, 2)],
+        "flat_ring": [dict(N=5, defect=0.3, n_cover=c) for c in (1, 2)],
+        "dual_mesh": [dict(src="icosahedron", mode="barycenter", bordered=F), dict(src="icosahedron", mode="circumcenter", bordered=F),
+                      dict(src="grid_3x3", mode="barycenter", bordered=T)],
+        "chain_of_vertices": [dict(n=4, loop=l) for l in BOOLS],
+        "vector_field": [dict(n=3, K=3, mult=1.0), dict(n=3, K=3, mult=0.5), dict(n=2, K=2, mult=1.0)],
+        "spherify_vertices": [dict(pts=POINT_SETS[i], radius=r, n_subdiv=k, **{"as": a})
+                              for (i, r, k, a) in [(0, 0.01, 1, "PointCloud"), (0, 0.01, 0, "ndarray"), (1, 0.25, 1, "ndarray"),
+                                                   (0, 0.25, 0, "PointCloud")]],
+        "cylindrify_edges": [dict(poly=1, radius=r, N=n) for (r, n) in [(0.05, 50), (0.05, 4), (0.25, 50), (0.25, 4)]],
+    }
+    big = {"torus": lambda q: q["major"] * q["minor"] > 100, "sphere_uv": lambda q: q["n_lat"] * q["n_long"] > 100,
+           "icosphere": lambda q: q["n_refine"] >= 3, "cylindrify_edges": lambda q: q["N"] >= 50}
+    res = {}
+    for gen, cases in out.items():
+        assert OPTIONALS[gen], gen
+        res[gen] = [{"p": q, "big": tier == "quick" and bool(big.get(gen, lambda _q: False)(q))} for q in cases]
+        if tier == "thorough":
+            res[gen] += [{"p": q, "big": False} for q in GENERATORS[gen][0]("quick")]
+    return res
+
+
+def call_forms_of(gen, big):
+    """the call forms tried on a case of a 'defaults' task (those that do not apply to it say so themselves)"""
+    return (["omit:" + n for n, _d in OPTIONALS[gen]] + ["omit:ALL"] + ([] if big else ["positional", "keyword"]))
+
+
+def run_defaults_task(M, task, rep):
+    gen = task["gen"]
+    fn = getattr(M.procedural, gen)
+    # C14.defaults.signature: the signature of the generator is the documented one (names, order, default values)
+    rep.count("signature_compared:" + gen)
+    rep.evaluations += len(SIGNATURES[gen]) + 1
+    o = call(signature_differences, gen, fn)
+    if not o.ok:
+        rep.violation("C14.defaults.signature", "procedural." + gen, exc_kind(o), "signature", {"generator": gen, "msg": o.msg[:300]})
+    else:
+        for kind, name, want, got in o.value:
+            rep.violation("C14.defaults.signature", "procedural." + gen, "mismatch:" + kind, name,
+                          {"generator": gen, "parameter": name, "documented": want, "found": got})
+    chk = GENERATORS[gen][1]
+    for c in task["cases"]:
+        rep.count("default_cases:" + gen)
+        run_case(M, gen, chk, c["p"], rep, forms=call_forms_of(gen, c["big"]), same_mesh=True, light=c["big"])
+
+
+def _selftest_defaults(M, rep):
+    """the call forms really leave out / reorder what they say, and the signature comparison notices a changed default,
+    a swapped order and nothing else"""
+    a = ("p1", "p2", 0.5, 50, False)
+    got = {f: _reshape_call("cylinder", f, a[:3], {"N": 50, "fill_caps": False}) for f in ("positional", "keyword", "omit:N")}
+    want = {"positional": (a, {}), "keyword": (a[:2], {"radius": 0.5, "N": 50, "fill_caps": False}),
+            "omit:N": (a[:2], {"radius": 0.5, "fill_caps": False})}
+    na = 0
+    for f, args in (("omit:radius", a), ("omit:ALL", a), ("omit:N", ("p1", "p2", 1.0, 50, True)), ("omit:fill_caps", a),
+                    ("omit:N", ("p1", "p2", 1.0, True, True))):
+        try:
+            _reshape_call("cylinder", f, args, {})
+        except _NotApplicable:
+            na += 1
+    if got == want and na == 5 and _reshape_call("cylinder", "omit:ALL", ("p1", "p2", 1, 50, True), {}) == (("p1", "p2"), {}):
+        rep.flag("selftest:call_forms")
+
+    def cyl_ok(P1, P2, radius=1, N=50, fill_caps=True, extra=None): pass
+    def cyl_default(P1, P2, radius=1.0, N=40, fill_caps=True): pass
+    def cyl_bool(P1, P2, radius=1.0, N=50, fill_caps=1): pass
+    def cyl_order(P1, P2, N=50, radius=1.0, fill_caps=True): pass
+    def cyl_required(P1, P2, radius, N=50, fill_caps=True): pass
+    def ico(center=M.Vec(0., 0., 1.), radius=1.0, uv=False): pass
+    d = signature_differences
+    if (d("cylinder", cyl_ok) == [] and [x[:2] for x in d("cylinder", cyl_default)] == [("default_value", "N")]
+            and [x[:2] for x in d("cylinder", cyl_bool)] == [("default_value", "fill_caps")]
+            and [x[:2] for x in d("cylinder", cyl_order)] == [("parameter_order", "radius")]
+            and [x[:2] for x in d("cylinder", cyl_required)] == [("default_value", "radius")]
+            and [x[:2] for x in d("icosahedron", ico)] == [("default_value", "center")]
+            and d("icosahedron", lambda center=M.Vec(0, 0, 0), radius=1, uv=False: None) == []):
+        rep.flag("selftest:signature_comparison")
+    # the comparison of two returned meshes sees an attribute, a face, a position
+    g1, g2 = M.procedural.unit_grid(2, 3, False, False), M.procedural.unit_grid(2, 3, False, True)
+    g3, g4 = M.procedural.unit_grid(2, 3, True, False), M.procedural.unit_grid(3, 2, False, False)
+    d1, d2, d3, d4 = (mesh_dump(g) for g in (g1, g2, g3, g4))
+    if ([dump_difference(d1, x) for x in (mesh_dump(M.procedural.unit_grid(2, 3)), d2, d3, d4)] == [None, "attributes", "n_faces", "vertices"]):
+        rep.flag("selftest:same_mesh_comparison")
+
+
 # number of runs in the further forms (pinned like the boxes)
+PINNED_CALLFORM_RUNS = {"quick": {"omit": 72, "positional": 70, "keyword": 70},
+                        "thorough": {"omit": 787, "positional": 932, "keyword": 932}}
 PINNED_RUNS = {"quick": {"repeat": 862, "int_dtype": 364, "default_argument": 75, "unit": 1686},
                "thorough": {"repeat": 4316, "int_dtype": 1244, "default_argument": 351, "unit": 17184}}
 
@@ -1772,6 +2099,11 @@ def tasks(tier):
         cases = enum(tier)
         for i in range(0, len(cases), batch):
             out.append({"gen": name, "tier": tier, "first_batch": i == 0, "cases": cases[i:i + batch]})
+    dc = default_cases(tier)
+    for name in GENERATORS:       # every generator: the signature; those with options: the call forms
+        cases = dc.get(name, [])
+        for i in range(0, max(len(cases), 1), 40):
+            out.append({"gen": name, "tier": tier, "kind": "defaults", "first_batch": i == 0, "cases": cases[i:i + 40]})
     return out
 
 
@@ -1783,6 +2115,11 @@ def run_task(task, rep: Report):
     old = dict(_ACTIVE)
     _ACTIVE.update(tier=task["tier"])
     try:
+        if task.get("kind") == "defaults":
+            if task["gen"] == "cylinder" and task.get("first_batch"):
+                _selftest_defaults(M, rep)
+            run_defaults_task(M, task, rep)
+            return
         if task.get("first_batch"):
             _selftest(M, rep)
         for p in task["cases"]:
@@ -1827,6 +2164,28 @@ def finish(tier, rep: Report):
             fails.append(f"unit deviation of {name}: {got} results at the deviated scale, {want} runs")
     if rep.counters.get("unit_orientation_side_compared", 0) < 100:
         fails.append("unit deviation: the side a surface faces was compared on fewer than 100 runs")
+    # documented defaults and call forms: every entry of the pinned table was exercised, every signature compared
+    dc = default_cases(tier)
+    for name in GENERATORS:
+        if rep.counters.get("signature_compared:" + name, 0) < 1:
+            fails.append(f"signature of {name} was not compared with the documented one")
+        if not OPTIONALS[name]:
+            continue
+        if rep.counters.get("default_cases:" + name, 0) != len(dc[name]):
+            fails.append(f"defaults of {name}: {rep.counters.get('default_cases:' + name, 0)} cases run, {len(dc[name])} listed")
+        for form in ["omit:" + n for n, _d in OPTIONALS[name]] + ["omit:ALL", "positional", "keyword"]:
+            if rep.counters.get("callform_run:%s:%s" % (name, form), 0) < 1:
+                fails.append(f"documented defaults / call forms: {name} was never called in the form {form}")
+    for form, n in PINNED_CALLFORM_RUNS[tier].items():
+        got = sum(v for kk, v in rep.counters.items() if kk.startswith("callform_run:") and kk.split(":", 2)[2].split(":")[0] == form)
+        if got != n:
+            fails.append(f"call form {form}: {got} runs, {n} pinned")
+        if form != "primary" and rep.counters.get("same_mesh_compared:" + form, 0) < n - 8:
+            fails.append(f"call form {form}: only {rep.counters.get('same_mesh_compared:' + form, 0)} of {n} results compared "
+                         "with the result of the explicit call")
+    for f in ("selftest:call_forms", "selftest:signature_comparison", "selftest:same_mesh_comparison"):
+        if f not in rep.flags:
+            fails.append("coverage flag missing: " + f)
     for kind in ("array:float", "array:int", "mesh", "default_argument"):
         if rep.counters.get("args_compared:" + kind, 0) == 0:
             fails.append(f"no argument object of kind {kind} was compared before / after a call")
